@@ -1,5 +1,6 @@
 import GroupbyVerif.Model.Cumulative
 import GroupbyVerif.Props.C04
+import GroupbyVerif.LoopBridge.Cumulative
 
 /-!
 # C08 — Cumulative operations are per-group prefix reductions
@@ -182,5 +183,47 @@ theorem source_loop_shape :
 example : cumulativeReduce (Scalar.nansum .f) (.num 0)
     [⟨0, .num 1, true⟩, ⟨1, .num 5, true⟩, ⟨-1, .num 9, true⟩, ⟨0, .nan, true⟩, ⟨0, .num 7, false⟩, ⟨0, .num 2, true⟩]
     = [some (.num 1), some (.num 5), none, some (.num 1), some (.num 1), some (.num 3)] := by decide
+
+/-! ### the loop of the current source, end to end -/
+
+/-- every reducer of the table counts at most one per row (needed for the `uint32` count array of the source) -/
+theorem model_redCountOK (k : Kind) (name : String) : LoopBridge.RedCountOK (modelReducers k name) := by
+  intro a v c
+  unfold modelReducers
+  split <;>
+    simp only [Scalar.sum, Scalar.nansum, Scalar.nansum_squares, Scalar.max, Scalar.nanmax, Scalar.min, Scalar.nanmin,
+      Scalar.nancount, Scalar.count, Scalar.first, Scalar.last, nanR] <;>
+    (repeat' split) <;> simp
+
+/-- **the translated `_cumulative_reduce`, run with the translated null-skipping reducer, is the per-group prefix
+reduction**: `Generated.Loops.cumulative_reduce` is regenerated from `groupby_lib/groupby/numba.py` on every run;
+for every chunking of the values, every mask and below `2^32` rows, the cell of every row holds the specification's
+value (`specCum`), a null-key row keeps the target's initial value (it is overwritten with the null marker by
+`_apply_cumulative` iff the returned flag is set, and the flag is set iff some key is null) -/
+theorem source_loop_eq_spec (op : CumOp) (k : Kind) (codes : List Int) (chunks : List (List Val)) (msk : List Bool)
+    (masked : Bool) (ng ml : Int) (hlen : codes.length = chunks.flatten.length)
+    (hn : (codes.length : Int) < 2 ^ 32) :
+    let rows := LoopBridge.cumRows codes chunks.flatten masked msk
+    let r := Generated.Loops.cumulative_reduce k codes.length (arrOf codes 0) chunks (op.red generatedReducers k true) ng
+      codes.length (fun _ => op.init k) masked ml (arrOf msk true)
+    r.2 = false ∧ r.1.2 = rows.any (fun r => decide (r.code < 0)) ∧
+      ∀ j, j < codes.length → r.1.1 (j : Int) = LoopBridge.outAt (op.init k) (specCum op k rows) j := by
+  intro rows r
+  have hok : LoopBridge.RedCountOK (op.red generatedReducers k true) := by
+    rw [C04.generated_eq_model]
+    cases op <;> simp only [CumOp.red] <;> exact model_redCountOK k _
+  have h := LoopBridge.cumulative_reduce_eq k (op.red generatedReducers k true) hok (op.init k) codes chunks msk masked
+    ng ml hlen hn
+  obtain ⟨h1, h2, h3⟩ := h
+  refine ⟨h1, h2, fun j hj => ?_⟩
+  rw [h3 j hj, C04.generated_eq_model, cum_eq_prefix]
+
+/-- non-vacuity: two chunks, two groups, a null key, a masked row, a NaN: cumsum -/
+example :
+    let r := Generated.Loops.cumulative_reduce .f 5 (arrOf [0, 1, -1, 0, 1] 0)
+      [[.num 1, .num 10], [.num 7, .nan, .num 5]] (CumOp.sum.red generatedReducers .f true) 2 5
+      (fun _ => CumOp.sum.init .f) true 5 (arrOf [true, true, true, true, false] true)
+    ((List.range 5).map fun (j : Nat) => r.1.1 (j : Int), r.1.2) = ([.num 1, .num 10, .num 0, .num 1, .num 10], true) := by
+  decide
 
 end GV.C08
